@@ -218,7 +218,7 @@ func NewExec() func(w []string) string {
 	return in.guarded
 }
 
-const hangAfter = 20 * time.Second
+const hangAfter = 120 * time.Second
 
 // guarded runs one op; a panic answers "panic", an op that does not return answers "hang".
 func (in *interp) guarded(w []string) string {
